@@ -62,7 +62,7 @@ class Prop:
               "load (save t) returns the stored header and a tree iso to t, and the result does not depend on key_map / value_map.  Tied to "
               "/repo by a correspondence check that writes and reads real files through all compression methods and target kinds."),
         note=("Trusted: Coq kernel + vm_compute; hand-written model theories/Forest/Serialize.v (tied by the correspondence only); json, "
-              "zipfile, io (byte transport); harness generators/observation.  Known findings D40, D51; D92 pending fix.  "
+              "zipfile, io (byte transport); harness generators/observation.  Known findings D40, D51.  "
               "EXERCISED, NOT PROVED (outside a pure value model of the document; checked by the harness oracle on every case): the six "
               "compression values and str/Path/stream targets give the same text and the same loaded tree (the compression DISPATCH itself is "
               "proved in part ZIPIO, C05_transport_*); callback vs derived-class mappers are the same model function reached by two Python "
@@ -229,9 +229,6 @@ class Prop:
         elif d51 and isinstance(t0, KeyError) and not fail:
             # known finding D51: the reader renames the mapper's own "s" (size) to "str"; FileSystemEntry(size=data["s"]) fails
             fail, finding = f"D51: load fails with {t0!r} because the key_map's short name 's' is also a key of the entries", "D51"
-        elif needs_mapper and type(t0) is NotImplementedError and not fail:
-            # finding D92 (fixes/D92.diff): written without a mapper, not loadable without one -- exactly this error
-            fail, finding = f"D92: a plain Tree saved without a mapper cannot be loaded without one: {t0!r:.160}", "D92"
         elif isinstance(t0, Exception):
             fail = fail or f"roundtrip: load fails with {t0!r:.300} on {text0[:400]}"
         else:
@@ -375,7 +372,7 @@ CORPUS = [
          km="treedefault", vm="true", mapper="fs", meta=None, calc=None),
     # outside the domain (clones_consistent): one explicit data_id on two different data objects -- 'b' must load as 'a', exactly
     _d(False, ["s:a", "s:x", "s:b"], [[0, None, 1, []], [1, None, None, [[2, None, 1, []]]]], mapper="cb"),
-    # D92: plain Tree, str node with explicit id, no mapper
+    # D92 (fixed): plain Tree, str node with explicit id, no mapper: must simply round-trip
     _d(False, ["s:x", "s:y"], [[0, None, "k1", [[1, None, None, []]]]], mapper="none"),
     # unicode, falsy explicit ids
     _d(False, ["s:\u00e4\u20ac\U0001f600", "e:1", "s:z"], [[0, None, 0, [[1, None, "", []]]], [2, None, None, [[0, None, 0, []]]]], km="custom", vm="custom",
